@@ -2,6 +2,7 @@ package main
 
 import (
 	"fmt"
+	"go/token"
 	"go/types"
 	"strings"
 
@@ -230,4 +231,83 @@ func h2OffsetsNonNeg(c *Ctx, fns []*ssa.Function) (bool, string) {
 		return false, fmt.Sprintf("only %d call sites found", n)
 	}
 	return true, ""
+}
+
+// runHpackBounds (C08.B8): MOSN's HPACK decoder stays inside the received bytes and inside its tables.
+//   (a) the linear bounds engine on the decoder's own functions (readVarInt, readString, parse*, huffman entry points);
+//   (b) every conversion of a peer-controlled unsigned 64-bit integer to a signed or narrower type is preceded by a guard
+//       that bounds it by a value of the target type: without it an index of 2^63+k turns negative, slips through signed
+//       comparisons and indexes far outside the table (panic in the connection's reader).
+func runHpackBounds(c *Ctx, rule string, withB1 bool) {
+	pkg := "pkg/module/http2/hpack"
+	fns := c.PkgFuncs(pkg)
+	if len(fns) == 0 {
+		c.Unresolved(rule, "package "+pkg)
+		return
+	}
+	if withB1 {
+		scope := map[*ssa.Function]bool{}
+		for _, fn := range fns {
+			switch fn.Name() {
+			case "readVarInt", "readString", "parseHeaderFieldRepr", "parseFieldIndexed", "parseFieldLiteral", "parseDynamicTableSizeUpdate", "callEmit", "Write":
+				scope[fn] = true
+				c.FuncsSeen[fn.String()] = true
+			}
+		}
+		br := newBoundsRun(c, scope)
+		br.runB1(rule)
+	}
+	n := 0
+	ord := ordCounter{}
+	for _, fn := range fns {
+		if fn.Signature.Recv() == nil || !strings.HasSuffix(typeName(fn.Signature.Recv().Type()), ".Decoder") {
+			continue
+		}
+		forEachInstr(fn, false, func(f *ssa.Function, in ssa.Instruction) {
+			cv, ok := in.(*ssa.Convert)
+			if !ok {
+				return
+			}
+			if _, named := cv.Type().(*types.Named); named {
+				return // e.g. InvalidIndexError(idx): the value only decorates an error
+			}
+			src, okS := cv.X.Type().Underlying().(*types.Basic)
+			dst, okD := cv.Type().Underlying().(*types.Basic)
+			if !okS || !okD || src.Kind() != types.Uint64 || dst.Info()&types.IsInteger == 0 || dst.Kind() == types.Uint64 {
+				return
+			}
+			n++
+			key := ord.next(f, "narrowing")
+			bounded := false
+			for _, g := range guardsAt(in.Block()) {
+				bo, ok := g.Cond.(*ssa.BinOp)
+				if !ok {
+					continue
+				}
+				// x <= B / x < B on the true edge, x > B / x >= B on the false edge, with x the converted value
+				upper := (bo.X == cv.X && ((g.True && (bo.Op == token.LEQ || bo.Op == token.LSS)) || (!g.True && (bo.Op == token.GTR || bo.Op == token.GEQ)))) ||
+					(bo.Y == cv.X && ((g.True && (bo.Op == token.GEQ || bo.Op == token.GTR)) || (!g.True && (bo.Op == token.LSS || bo.Op == token.LEQ))))
+				if !upper {
+					continue
+				}
+				other := bo.Y
+				if bo.Y == cv.X {
+					other = bo.X
+				}
+				// the bound itself must fit the target type: a constant, or a conversion from a narrower/signed value
+				if _, isC := other.(*ssa.Const); isC {
+					bounded = true
+				}
+				if oc, isCv := other.(*ssa.Convert); isCv {
+					if ob, ok := oc.X.Type().Underlying().(*types.Basic); ok && ob.Kind() != types.Uint64 {
+						bounded = true
+					}
+				}
+			}
+			c.Check(rule, key, cv.Pos(), bounded, "the peer-controlled value is bounded by a value of the target type before it is converted", "a peer-controlled uint64 (HPACK integer) is converted to "+dst.Name()+" without an upper bound: values above the target range wrap (2^63+k becomes negative), pass signed comparisons and index outside the table - the decoder panics in the connection's reader")
+		})
+	}
+	if n < 2 {
+		c.Unresolved(rule, fmt.Sprintf("uint64 narrowing conversions in the HPACK decoder (found %d)", n))
+	}
 }
